@@ -137,7 +137,7 @@ def run_check(pid, harnesses, tier="quick", seed=0, budget=None, level="proof", 
             elif f["status"] == "sat" and in_ledger:
                 # `sat` over uninterpreted abstractions of exp / log / ... is not a counterexample over the reals, and neither the model nor the
                 # native search reproduced a failure on the real code: not decided
-                undecided.append((hid, f["name"], "sat only over uninterpreted abstractions, no failing input reproduced natively"))
+                undecided.append((hid, f["name"], "sat over abstracted real functions: the model is not a counterexample under the real exp/log/... (" + str(f.get("real_evaluation"))[:120] + "), and no failing input reproduced natively"))
             else:
                 undecided.append((hid, f["name"], f"{f['status']}" + ("" if in_ledger else " (obligation not in ledger)")))
         if not rec["obligations"]:
@@ -162,7 +162,7 @@ def run_check(pid, harnesses, tier="quick", seed=0, budget=None, level="proof", 
             json.dump({"property": pid, "harness": hid, "obligation": f["name"], "line": f.get("line"), "how": how,
                        "goal": f.get("goal"), "inputs": f.get("replay_inputs"), "native": f.get("native"),
                        "solver_output": f.get("solver_output"), "found_by": f.get("found_by", "solver-model"),
-                       "cut_status": f.get("cut_status")}, fh, indent=1, default=str)
+                       "cut_status": f.get("cut_status"), "real_evaluation": f.get("real_evaluation")}, fh, indent=1, default=str)
         tail = "" if how == "replayed" else " no-failing-input-found"
         print(f"VIOLATION property={pid} replay={path}{tail}")
         print(f"  obligation {f['name']} (line {f.get('line')}) in {hid}: {f['status']}; native={f.get('native')}")
